@@ -145,6 +145,7 @@ theorem npW_dims (m0 : ℝ) (l : List Nat) : (dimsN (npW m0 l)).sum = (npW m0 l)
   rw [npW_dimsN]; rfl
 
 theorem npW_rows (m0 : ℝ) (l : List Nat) : RowsOK (toProblem (npW m0 l)) := by
+  apply RowsOK.of_nodup
   intro i hi
   have : i = 0 ∨ i = 1 ∨ i = 2 := by have : i < 3 := hi; omega
   rcases this with rfl | rfl | rfl <;> simp [toProblem, npW, Array.getD]
